@@ -47,6 +47,9 @@ class Contract:
     ghost_state: dict = field(default_factory=dict)   # name -> (T, f(o) -> Sym): specification-only variables, read in invariants as e.get('$g.<name>')
     ghost_updates: dict = field(default_factory=dict) # loop ordinal -> f(e) -> {name: Sym}: assignment executed at the end of every iteration of that loop
     ghost_fields_of: tuple = ()                # names of environment records whose ghost fields are assigned by ghost_updates ("self")
+    at: dict = field(default_factory=dict)     # first line of a statement (as printed by ast.unparse, prefix match) -> {'ghost': f(e) -> {name: Sym}, 'lemmas': f(e) -> [Bool]}:
+                                               # before that statement runs, the ghost variables are assigned ($g.<name>) and the lemmas are proved in order in the current
+                                               # context and then kept - the way to record a value that the code overwrites, or to cut a long argument at a program point
     if_ordinals: bool = False                  # number loops inside `if` blocks separately (if<k>.<n>); off: they restart at <n> and may share an invariant with a top-level loop
     entry_lemmas: object = None                # f(o) -> [(name, [local axioms], Bool)]: consequences of the precondition, each proved *in isolation*
                                                # (from the precondition and the listed axioms only), then available to every later obligation
@@ -128,6 +131,8 @@ class Engine:
         if t is TNone: return BoolVal(False)
         if isinstance(t, TVal) and t.name in self.w.none_consts:
             return s.term != self.w.none_consts[t.name]
+        if isinstance(t, TRec) and f'{t.name}.__bool__' in self.w.contracts and self.w.contracts[f'{t.name}.__bool__'].pure is not None:
+            return unwrap(self.w.contracts[f'{t.name}.__bool__'].pure(NS({'self': s})))          # bool(obj) through the pure contract of __bool__
         raise Unsupported(f'truthiness of {t}')
 
     # ------------------------------------------------------------------ expressions
@@ -413,10 +418,12 @@ class Engine:
                 cn = e.args[1].id if isinstance(e.args[1], ast.Name) else (e.args[1].attr if isinstance(e.args[1], ast.Attribute) and isinstance(e.args[1].value, ast.Name) and e.args[1].value.id not in st.env else None)
                 if cn in self.w.isinstance_preds: return Sym(TBool, self.w.isinstance_preds[cn](self.ev(e.args[0], st)))
             if n in self.w.identity_fns: return self.ev(e.args[0], st)
+            if n == 'bool' and len(e.args) == 1: return Sym(TBool, self.truthy(self.ev(e.args[0], st)))
             if n == 'len' and len(e.args) == 1:
                 a = self.ev(e.args[0], st)
                 if a.t is None and a.ref is not None: a = self.ev(a.ref, st)          # reference local
                 if isinstance(a.t, TSeq): return Sym(TInt, Length(a.term))
+                if isinstance(a.t, TSet) and getattr(self.w, 'card', None) is not None: return Sym(TInt, self.w.card(a))          # |S| as an uninterpreted function with the world's axioms
                 if isinstance(a.t, TRec) and f'{a.t.name}.__len__' in self.w.contracts:
                     return self.apply_contract(self.w.contracts[f'{a.t.name}.__len__'], None, a, [], st, e.lineno)
                 raise Unsupported(f'len() of {a.t} outside a comparison with a constant (line {e.lineno})')
@@ -612,8 +619,17 @@ class Engine:
         for s in stmts:
             nxt = []
             if isinstance(s, ast.If): s._if_index = ii; ii += 1
+            hooks = []
+            if self.cur.at:
+                src = ast.unparse(s).split('\n')[0]
+                hooks = [spec for key_, spec in self.cur.at.items() if src.startswith(key_)]
             for cur, oc in outs:
                 if oc != 'normal': nxt.append((cur, oc)); continue
+                for spec in hooks:
+                    if 'ghost' in spec:
+                        for g, v in spec['ghost'](NS(cur.env)).items(): cur.env['$g.' + g] = v
+                    for gi, g in enumerate(spec['lemmas'](NS(cur.env)) if 'lemmas' in spec else []):
+                        g = unwrap(g); self.oblige(cur, f'lemma {gi} before line {s.lineno}', g, s.lineno); cur.pc.append(g)
                 if isinstance(s, (ast.For, ast.While)): nxt += self.ex_loop(s, cur, path + [li])
                 else: nxt += self.ex_stmt(s, cur, path)
             if isinstance(s, (ast.For, ast.While)): li += 1
